@@ -105,7 +105,7 @@ def build(world, spec, parent=None):
 def rand_spec(rng, depth, names=("item", "item", "a", "b")):
     pfx = rng.choice([None, None, "p", "q"])
     s = {"name": rng.choice(names), "pfx": pfx,
-         "expns": rng.choice([None, None, None, "urn:d1", "urn:d2"]),
+         "expns": rng.choice([None, None, None, "urn:d1", "urn:d2", "urn:d1", ""]),
          "nsp": [], "attrs": [], "text": rng.choice([None, None, "t", "", " x "]), "kids": []}
     for k in rng.sample(["p", "q", "r"], rng.randint(0, 2)):
         s["nsp"].append([k, rng.choice([U[k], U[k], "urn:other"])])
@@ -533,6 +533,33 @@ def doctor_rule_reused(ctx):
                      [facts, len(set(ids))], [[[1, True, 2, "urn:want"]] * 3, 3])
 
 
+def aliased_nodes(ctx):
+    """Edits go by the object given, also in states the element API lets a caller build that are not trees: a node
+    appended under two parents (append does not detach), two attribute objects with one qualified name."""
+    from suds.sax.element import Element
+    from suds.sax.attribute import Attribute
+    a, b, x, y = Element("a"), Element("b"), Element("x"), Element("y")
+    a.append(x)
+    a.append(y)
+    b.append(x)                       # x is now listed by a and by b; its parent link says b
+    ctx.case(("aliased", "detachChildren"), True)
+    got = a.detachChildren()
+    facts = [[id(n) for n in got] == [id(x), id(y)], a.children == [], [id(n) for n in b.children] == [id(x)]]
+    if facts != [True, True, True]:
+        ctx.fail("detachChildren did not detach exactly the children of the node it was called on", {"stream": "aliased"},
+                 facts, [True, True, True])
+    e = Element("e")
+    first, second, other = Attribute("k", "1"), Attribute("k", "2"), Attribute("p:k", "3")
+    for at in (first, other, second):
+        e.append(at)
+    ctx.case(("aliased", "remove-attribute"), True)
+    e.remove(second)
+    left = [id(t) for t in e.attributes]
+    if left != [id(first), id(other)]:
+        ctx.fail("removing an attribute object removed another attribute with the same name", {"stream": "aliased"},
+                 [str(t) for t in e.attributes], 'k="1" p:k="3"')
+
+
 def kf_clone_attr_ns(f, k):
     """D21: the clone differs only in the namespace of attributes whose prefix is bound above the cloned node."""
     return f.get("what", "").startswith("clone is not equal") and f.get("masked_equal") is True
@@ -606,6 +633,7 @@ def run(ctx):
     equality_and_doctor(ctx)
     attribute_histories(ctx)
     doctor_rule_reused(ctx)
+    aliased_nodes(ctx)
     if runs:
         ctx.sample({"forest": runs[0]["forest"], "ops": runs[0]["ops"][:4]})
     ctx.sample({"forest": [FIXED], "ops": [{"op": "detach", "n": 3}, {"op": "prune", "n": 1}]})
